@@ -377,6 +377,12 @@ Fixpoint walk (orig : list (Z * nat)) (useful : list Z) : option (list (Z * nat)
     end
   end.
 
+Fixpoint lookupZ {A} (i : Z) (t : list (Z * A)) : option A :=
+  match t with
+  | [] => None
+  | (j, v) :: r => if Z.eqb i j then Some v else lookupZ i r
+  end.
+
 Definition referenced (es : list (string * list (Z * list Z))) : list Z :=
   uniq (ZSort.sort (concat (map (fun b => concat (map snd (snd b))) es))).
 
@@ -392,9 +398,15 @@ Definition remove_useless (m : mesh) : result mesh :=
     let pos := map snd kept in
     nodes' <- of_option "IndexError" (mapO (nth_error (m_nodes m)) pos) ;;
     init' <- mapM (fun kv =>
-                     rows' <- of_option "IndexError" (mapO (nth_error (snd kv)) pos) ;;
-                     (* value.data[useful_indices] re-labelled with the new node ids *)
-                     Ok (fst kv, combine (map fst nodes') (map snd rows')))
+                     if rebind_by_id then
+                       (* value.loc[self.nodes.ids].values *)
+                       vals <- of_option "KeyError"
+                                 (mapO (fun i => lookupZ i (snd kv)) (map fst nodes')) ;;
+                       Ok (fst kv, combine (map fst nodes') vals)
+                     else
+                       (* value.data[useful_indices] re-labelled with the new node ids *)
+                       rows' <- of_option "IndexError" (mapO (nth_error (snd kv)) pos) ;;
+                       Ok (fst kv, combine (map fst nodes') (map snd rows')))
                   (m_initial m) ;;
     Ok (mkmesh nodes' (m_elems m) (m_egroups m) (m_sections m) init').
 
